@@ -42,6 +42,7 @@ static void op(ST& st, Model& M, const char* tag) {
 }
 static void agrees(ST& st, const Model& M, const char* label) {
   int cnt = 0; for (int m = 1; m < NS; m++) { auto sh = st.find(word(m)); vp_assert((sh != st.null_simplex()) == M.present[m], label); if (M.present[m] && sh != st.null_simplex()) { cnt++; if (Opts::store_filtration) vp_assert(st.filtration(sh) == M.filt[m], label); } }
+  { int md = -1; for (int m = 1; m < NS; m++) if (M.present[m] && __builtin_popcount(m) - 1 > md) md = __builtin_popcount(m) - 1; vp_assert(st.dimension() == md, label); }
   vp_assert((int)st.num_simplices() == cnt, label); int seen = 0; for (auto sh : st.complex_simplex_range()) { (void)sh; seen++; } vp_assert(seen == cnt, label);
 }
 extern "C" void harness() {
